@@ -91,6 +91,16 @@ func checkC05(c *Ctx, r *Report) {
 		}
 		r.floor("R5.11", 1)
 	}
+	// R5.13: the byte order a field definition carries decides how its registers are decoded: every
+	// typed accessor decodes with (its order argument, or the default iff the argument is 0) for
+	// the word order and the byte order alike (C04 R4.3; a field with only the word-order flag set
+	// must not fall back to the default wholesale)
+	{
+		tmp := newReport(r.Prop, r.Tier)
+		runC04On(c, tmp, "packet", "Registers", "NewRegisters", false)
+		r.instance("R5.13", copyItems(tmp, r, "R4.3", "R5.13"))
+		r.floor("R5.13", 10)
+	}
 	c05FullRange(c, r, "R5.7")
 	c05Loops(c, r)
 	c05SlotMerge(c, r)
